@@ -17,11 +17,21 @@ type rtCase struct {
 	mcase.Case
 	Det  bool
 	Lazy bool
+	// recycled cases (recycle_test.go): the instance held Pre before and went through PreOp
+	Pre      *model.Msg `json:",omitempty"`
+	PreOp    string     `json:",omitempty"`
+	Hollowed int        `json:",omitempty"`
 }
 
 func checkRT(c rtCase) error {
 	md := c.Desc()
 	m, err := c.Build()
+	if c.Pre != nil {
+		m, err = buildRecycled(c)
+		if err != nil {
+			return err
+		}
+	}
 	if err != nil {
 		return fmt.Errorf("harness: %v", err)
 	}
@@ -75,9 +85,13 @@ func checkRT(c rtCase) error {
 func TestRoundTrip(t *testing.T) {
 	pbt.Run(t, pbt.Prop[rtCase]{
 		Name: "roundtrip",
-		Rule: "type drawn from all linked message types (generated or dynamicpb of the same descriptor); content from the descriptor-directed generator (boundary scalars, NaN/-0, maps, oneofs, groups, extensions, unknown fields); plus a perturbed-but-equivalent reference encoding (shuffled fields, repacked lists, padded varints, decoys, split submessages, map entry variants). non-trivial = >= 3 populated fields and >= 2 distinct shapes among map/oneof/group/extension/packed/list/unknown/submessage",
+		Rule: "type drawn from all linked message types (generated or dynamicpb of the same descriptor); content from the descriptor-directed generator (boundary scalars, NaN/-0, maps, oneofs, groups, extensions, unknown fields); a quarter of the cases obtain the message by recycling an instance that held other content and was already marshalled / sized (submessages, list elements and map values transformed in place, some emptied while staying present); plus a perturbed-but-equivalent reference encoding (shuffled fields, repacked lists, padded varints, decoys, split submessages, map entry variants). non-trivial = >= 3 populated fields and >= 2 distinct shapes among map/oneof/group/extension/packed/list/unknown/submessage",
 		Draw: func(t *rapid.T) rtCase {
-			return rtCase{Case: mcase.Draw(t, nil, nil, gen.DefaultMsgOpts, model.AllPerturbations), Det: rapid.Bool().Draw(t, "det"), Lazy: rapid.Bool().Draw(t, "lazy")}
+			c := rtCase{Case: mcase.Draw(t, nil, nil, gen.DefaultMsgOpts, model.AllPerturbations), Det: rapid.Bool().Draw(t, "det"), Lazy: rapid.Bool().Draw(t, "lazy")}
+			if rapid.IntRange(0, 3).Draw(t, "recycled") == 0 {
+				drawRecycled(t, &c)
+			}
+			return c
 		},
 		Check:      checkRT,
 		NonTrivial: func(c rtCase) bool { return c.NonTrivial() },
@@ -85,6 +99,12 @@ func TestRoundTrip(t *testing.T) {
 			cl := c.Classes()
 			if c.Lazy {
 				cl = append(cl, "lazy-on")
+			}
+			if c.Pre != nil {
+				cl = append(cl, "recycled", "recycled-after-"+c.PreOp)
+				if c.Hollowed > 0 {
+					cl = append(cl, "recycled-with-emptied-submessage")
+				}
 			}
 			return cl
 		},
